@@ -1105,6 +1105,20 @@ def run_C12(ctx):
                 tail.append({'op': 'new'})
             case['ops_b'] = sched + tail + sched
         eval_c12(ctx, case)
+    # self-locking chains whose controller has switched the motor off (or reversed it) by the end of the schedule, with and
+    # without current data: reset must put the duty cycle back before the rerun
+    for _ in range(ctx.budget(12, 300)):
+        spec = gen.gen_spec(rng, random_units=rng.random() < 0.5, sl_bias=1.0, currents=rng.random() < 0.5)
+        dt = 2.0 ** -rng.randint(3, 6)
+        total = rng.randint(6, 16)
+        k = rng.randint(2, total - 2)
+        spec['rules'] = [{'type': 'const', 'start': [k * dt, 'sec'], 'dur': [1e6, 'sec'], 'value': rng.choice([0, 0, -1, -0.5])}]
+        one, _, _ = gen.run_op(rng, dt_si=dt, steps=(total, total), unit='sec')
+        kind = rng.choice(['rerun', 'rerun-new'])
+        tail = [{'op': 'reset'}, {'op': 'init', 'pos': spec['init']['pos'], 'speed': spec['init']['speed']}]
+        if kind == 'rerun-new':
+            tail.append({'op': 'new'})
+        eval_c12(ctx, {'t': 'c12', 'kind': kind + '-switched-off', 'spec': spec, 'ops_a': [one], 'ops_b': [one] + tail + [one]})
     ctx.rule = ('random models (half of them self-locking, most with ConstantPWM controllers, time-dependent loads): '
                 'one run vs run + continuation at every split point (continuation also in ms / min / hour), and '
                 'schedule vs schedule + reset + re-applied initial conditions + same schedule (same or new solver, also with state-dependent '
